@@ -52,18 +52,12 @@ end J
 /-- `f"segment_{n:02d}"` -/
 def segKey (n : Nat) : String := "segment_" ++ (if n < 10 then "0" else "") ++ toString n
 
-/-- the pulse functions `blueprint_from_description` knows (built-ins of `PulseAtoms`) -/
+/-- the pulse functions `blueprint_from_description` knows: the static methods of `PulseAtoms`
+    with the parameter names read from the source (`Gen.pulseSignatures`) -/
 def builtinFns : List Fn :=
-  [ Fn.rampFn
-  , { special := false, name := "sine", qual := "function PulseAtoms.sine",
-      params := ["freq", "ampl", "off", "phase", "SR", "npts"], shape := .call }
-  , { special := false, name := "gaussian", qual := "function PulseAtoms.gaussian",
-      params := ["ampl", "sigma", "mu", "offset", "SR", "npts"], shape := .call }
-  , { special := false, name := "gaussian_smooth_cutoff", qual := "function PulseAtoms.gaussian_smooth_cutoff",
-      params := ["ampl", "sigma", "mu", "offset", "SR", "npts"], shape := .call }
-  , Fn.waitCallable
-  , { special := false, name := "arb_func", qual := "function PulseAtoms.arb_func",
-      params := ["func", "kwargs", "SR", "npts"], shape := .call } ]
+  Gen.pulseSignatures.map (fun (nm, ps) =>
+    { special := false, name := nm, qual := "function PulseAtoms." ++ nm, params := ps,
+      shape := if nm = "ramp" then .ramp else if nm = "waituntil" then .zeros else .call })
 
 namespace BP
 
